@@ -23,6 +23,7 @@ Decides:
  R registry      collect_shorts descends through every wrapper (shared with C02): a short name that is missing from the cluster registry makes `-j4`
                         a plain word, i.e. a positional whose place in the line matters.
  T empty value   `--name=` carries the empty value and does not reach for its neighbour (shared with C02).
+ R registry rows every item kind hands ALL its short names (hidden aliases too) to the registry and run_inner wires the registry straight (shared with C02).
 Does not decide: invariance of the outcome under all permutations (value-level)."""
 from core import *
 from dataflow import *
@@ -32,7 +33,7 @@ import consumers, c07, c08, c09
 LEVEL = 'other'
 EXPLANATION = __doc__
 ASSUMPTIONS = []
-FLOORS = {'S.search': 18, 'I.index-opaque': 2, 'M.matcher': 8, 'C.command-scope': 1, 'T.separator': 2, 'H.help-version-order': 3, 'O.own-items': 10, 'L.repetition': 3, 'R.registry': 10}
+FLOORS = {'S.search': 18, 'I.index-opaque': 2, 'M.matcher': 8, 'C.command-scope': 1, 'T.separator': 2, 'H.help-version-order': 3, 'O.own-items': 10, 'L.repetition': 3, 'R.registry': 20}
 
 def run(ctx):
     cfgs = ['none', 'all']
@@ -47,6 +48,8 @@ def run(ctx):
         ctx.guard(c05.tokenizer_context_free, ctx, cfg, fs, 'T.separator')
         ctx.guard(c08.keep_only, ctx, lambda: c02.equals_value(ctx, cfg, fs), lambda o: True, 'T.separator')
         ctx.guard(c12.walker_rules, ctx, cfg, fs, 'R.registry', {'collect_shorts': c12.WALKERS['collect_shorts']})
+        ctx.guard(c08.keep_only, ctx, lambda: c02.registry(ctx, cfg, fs), lambda o: True, 'R.registry')
+        ctx.guard(c08.keep_only, ctx, lambda: c02.name_search(ctx, cfg, fs), lambda o: o.rule == 'R.registry', 'R.registry')
         import c06
         ctx.guard(c06.loop_conditions, ctx, cfg, fs, 'L.repetition')
         ctx.guard(c08.keep_only, ctx, lambda: c09.tokenizer(ctx, cfg, fs), lambda o: 'marker-' in o.key, 'T.separator')
